@@ -51,6 +51,14 @@ def nested(depth, kind, filt_inner, filt_outer):
 class C07(Spec):
     id = 'C07'; engine = 'exn'; harness = 'h_exn'; driver = 'drv_exn'
     generators = ('Exn',)
+    technique = 'Lean 4 proof by structural induction: machine model of the macros refines structured-exception semantics; source-derived parameters regenerated each run; differential check against the real macros'
+    level_text = ('Theorem C07_machine_refines_reference: for every program tree, nesting bound and start state, the model of try/catch/throw '
+                  '(depth, active flag, jump-buffer indices) produces exactly the trace of a structured-exception reference semantics, restores the depth, '
+                  'never aborts or jumps to a dead buffer. The parameters that a source change can flip (does exception_catch consume; EXCEPTION_MAX_DEPTH; '
+                  'the macro texts) are regenerated from /repo on every run and the theorem is re-checked against them; the machine model is tied to the '
+                  'real macros by running thousands of program trees (exhaustive small trees, random, lexical and deep dynamic nesting) on both.')
+    level_note = ('Trusted: Lean kernel; axioms propext/Quot.sound/Classical.choice at most; the regex translator for Exception.c; the harness/driver comparison '
+                  '(testing); setjmp/longjmp and process exit status are modelled. Not covered: signals-to-exceptions, stack traces, other threads (C13).')
     rule = ('program trees: (a) exhaustive enumeration of all trees with up to N constructor nodes over 2 exception kinds and 4 filter '
             'sets, (b) random trees (depth<=6, size<=40, 6 kinds, filter arity 0-3, calls), (c) lexically nested 3-level blocks inside '
             'one C function for every throw/filter choice sampled, (d) dynamic nesting to depth 200/2000. Each runs on the real '
